@@ -10,6 +10,10 @@ import itertools
 SINK = ["r"]   # variable that `use` statements assign to; None: `x = x;` (no other variable needed)
 
 
+# the expression a `use` of a variable stands in (a pattern with one %s); None: the bare name
+USEFORM = [None]
+
+
 def render(body, ind=1, cond="r == 0", sink="r"):
     old = SINK[0]; SINK[0] = sink
     try:
@@ -38,7 +42,7 @@ def render_stmt(st, ind, cond="r == 0"):
     if k == 'raw': return "%s%s\n" % (t, st[1])          # any statement text (errors of other stages inside branches)
     if k == 'declarr':      # an array literal (empty, or of the given variables) opens a scope of its own in the scoper
         return "%svar %s: [%d]i32 = [%s];\n" % (t, st[1], len(st[2]), ", ".join(st[2]))
-    if k == 'use': return "%sr = %s;\n" % (t, st[1])
+    if k == 'use': return "%sr = %s;\n" % (t, (USEFORM[0] or "%s") % st[1])
     if k == 'assign': return "%sr = r + 1;\n" % t
     if k == 'loop': return "%sloop;\n" % t
     if k == 'block': return "%s{\n%s%s}\n" % (t, render(st[1], ind + 1, cond, SINK[0]), t)
